@@ -96,5 +96,11 @@ ExportCases ==
   /\ \A d \in 1..Len(Depths) :      \* shallow queries over deep documents
         /\ PrintT(<<"REPLAY", ToJson([id |-> <<"deepdoc", "desc", Depths[d]>>, q |-> <<36, 46, 46, 42>>, doc |-> [nest |-> Depths[d], kind |-> "arr"], verdict |-> "valid"])>>)
         /\ Depths[d] > 512 \/ PrintT(<<"REPLAY", ToJson([id |-> <<"deepdoc", "descfilter", Depths[d]>>, q |-> <<36, 46, 46, 91, 63, 64, 46, 46, 97, 93>>, doc |-> [nest |-> Depths[d], kind |-> "obj"], verdict |-> "valid"])>>)
-Export == (pc = "idle" /\ calls = 0) => ExportCases
+HostileNames == << <<92, 39>>, <<39>>, <<92>>, <<92, 92, 39>>, <<39, 39>>, <<34, 92>>, <<233, 128512>>, <<128512, 233, 128512>>, <<10>>, <<0>>, <<127>>, <<39, 92, 39, 92>> >>
+HostileQ == << <<36, 46, 42>>, <<36, 46, 46, 42>>, <<36, 91, 63, 64, 61, 61, 49, 93>>, <<36, 46, 46, 91, 48, 93>>, <<36, 46, 46, 91, 63, 64, 93>> >>
+ExportHostile ==
+  \A n \in 1..Len(HostileNames) : \A k \in 1..Len(HostileQ) :
+     PrintT(<<"REPLAY", ToJson([id |-> <<"hostile", "", n * 10 + k>>, q |-> HostileQ[k], verdict |-> "valid",
+                                doc |-> JObj(<<HostileNames[n]>>, <<JArr(<<JInt(1), JObj(<<HostileNames[n]>>, <<JArr(<<JInt(1)>>)>>)>>)>>)])>>)
+Export == (pc = "idle" /\ calls = 0) => (ExportCases /\ ExportHostile)
 =============================================================================
